@@ -1428,6 +1428,16 @@ impl<'a> Run<'a> {
                     break;
                 }
                 self.reqs[j].expect = Some((c, cur_step));
+                // "every state change that lets a request proceed wakes it": the connection was sent
+                // down this request's waiter channel in this step, which wakes the task that last
+                // polled the receiver - if the request was polled at all
+                if self.reqs[j].polls > 0 && !self.reqs[j].waker.woken.load(Ordering::SeqCst) {
+                    let detail = format!(
+                        "connection {} was made available to request {} (a live waiter, polled {} times) at step {}, but the request's waker was not invoked",
+                        c, j, self.reqs[j].polls, cur_step
+                    );
+                    self.viol("C03", "handback_did_not_wake", json!({"h2": h2}), detail);
+                }
                 if h2 {
                     // a shareable connection is cloned to every live waiter
                     self.out.count("probe.h2_registration_with_live_waiters");
